@@ -113,6 +113,11 @@ let process id k ext succs roots pres events =
             | _ -> do_step "ctx.Done observed but the frame is not cancelled in the model" (LWaitCancel (mt t)))
          | ["startok"; t] -> do_step "Start: no free permit in the model (more than K permits in use)" (LStart (mt (int_of_string t)))
          | ["startfail"; t] -> do_step "Start failed but the frame is not cancelled in the model" (LStartFail (mt (int_of_string t)))
+         | ["push"; t; "s"] ->
+           (* the push stored the node and then failed: DPushFailStored of Model/CopyImplDst.v *)
+           (match dstep succ !dst (DPushFailStored (mt (int_of_string t))) with
+            | Some x' -> dst := x'; st := x'.ds; incr nsteps; if not (dclosedb succ x'.dd) then closed := false
+            | None -> raise (Reject "push not enabled"))
          | ["push"; t; r] -> do_step "push not enabled" (LPush (mt (int_of_string t), r = "1"))
          | ["ret"; t; e] -> expect_fin (int_of_string t) (e = "1")
          | ["goret"; f; e] ->
